@@ -961,14 +961,82 @@ def check_C08(ctx):
             extra = sorted(sb - sa)
             lost = sorted(sa - sb)
             cls = _c08_class(hk, [seg(x) for x in extra], [seg(x) for x in lost], a, b)
-            if cls.startswith("sites_differ") and extra and not lost and _in_chain("\n".join(src), [x[1] for x in extra if x]):
-                cls = "crosstalk:chain_eager"
+            more = []
+            precise = False
+            if cls.startswith("sites_differ") and extra and not lost:
+                # sites that only fire in the larger selection because a known eager evaluation reaches them: later
+                # comparators of a chain under a comparison hook, the message of an assert under the _assert hook
+                sel_ = set(c.get("select") or [])
+                for g_ in list(sel_):
+                    sel_ |= set(fam.get(g_, []))        # a generic name selects its leaves
+                trig = {"chain_eager": bool(sel_ & {"comparison", "equal", "not_equal", "less_than", "less_than_equal", "greater_than", "greater_than_equal", "_in", "not_in", "_is", "is_not"}),
+                        "assert_msg_eager": "_assert" in sel_}
+                kinds = [_eager_site("\n".join(src), x[1]) for x in extra if x]
+                if kinds and all(kinds) and all(trig[k_] for k_ in kinds):
+                    ks = sorted(set(kinds))
+                    cls, more = "crosstalk:" + ks[0], ["crosstalk:" + k_ for k_ in ks[1:]]
+                    precise = True
+            if not precise and not cls.startswith("crosstalk"):
+                # downstream consequences of the same eager evaluations: the eagerly evaluated region has effects of its
+                # own (it calls, logs, creates recorder objects, raises), so everything after it may differ
+                sel_ = set(c.get("select") or [])
+                for g_ in list(sel_):
+                    sel_ |= set(fam.get(g_, []))
+                solo_ = {hk} | set(fam.get(hk, []))
+                cmp_ = {"equal", "not_equal", "less_than", "less_than_equal", "greater_than", "greater_than_equal", "_in", "not_in", "_is", "is_not"}
+                trig = {"chain_eager": bool(sel_ & cmp_) and not (solo_ & cmp_), "assert_msg_eager": "_assert" in sel_ and "_assert" not in solo_}
+                ks = sorted(k_ for k_ in _eager_effects("\n".join(src)) if trig[k_])
+                if ks:
+                    cls, more = "crosstalk:" + ks[0], ["crosstalk:" + k_ for k_ in ks[1:]]
             if "cannot access free variable" in json.dumps([rs.get("inst"), rc.get("inst")], default=str):
                 # a hooked read of a not-yet-bound function local fails with NameError instead of UnboundLocalError
                 # (KNOWN_FINDINGS unbound_local_thunk): whether the read is hooked depends on the selection
                 cls = "crosstalk:unbound_local_thunk"
             ctx.violation("C08:%s" % cls, "hook %s receives a different sequence when instrumented within %s (%d hooks) than alone: first difference at %d: %r vs %r; extra sites %r lost sites %r" % (
                 hk, label, len(c.get("select") or []), j, a[j:j + 1], b[j:j + 1], [seg(x)[:30] for x in extra][:3], [seg(x)[:30] for x in lost][:3]), {"solo": solo, "full": c})
+            for cls2 in more:
+                ctx.violation("C08:%s" % cls2, "hook %s receives a different sequence when instrumented within %s than alone (extra sites %r)" % (hk, label, [seg(x)[:30] for x in extra][:3]), {"solo": solo, "full": c})
+
+
+def _eager_site(text, loc):
+    """'chain_eager' if the (sl, sc, el, ec) location lies in a comparator after the first of a comparison chain,
+    'assert_msg_eager' if it lies in the message of an assert, else None"""
+    import ast as _ast
+
+    try:
+        tree = _ast.parse(text)
+    except SyntaxError:
+        return None
+    l = tuple(loc)
+
+    def inside(n):
+        return (n.lineno, n.col_offset) <= (l[0], l[1]) and (l[2], l[3]) <= (n.end_lineno, n.end_col_offset)
+
+    for n in _ast.walk(tree):
+        if isinstance(n, _ast.Assert) and n.msg is not None and inside(n.msg):
+            return "assert_msg_eager"
+    for n in _ast.walk(tree):
+        if isinstance(n, _ast.Compare) and len(n.ops) >= 2 and inside(n):
+            return "chain_eager"
+    return None
+
+
+def _eager_effects(text):
+    """the kinds of eager evaluation whose region can have effects of its own: an assert message that is more than a
+    constant or a name; a comparison chain of two or more links in which a later link has a non-constant operand"""
+    import ast as _ast
+
+    try:
+        tree = _ast.parse(text)
+    except SyntaxError:
+        return set()
+    out = set()
+    for n in _ast.walk(tree):
+        if isinstance(n, _ast.Assert) and n.msg is not None and not isinstance(n.msg, (_ast.Constant, _ast.Name)):
+            out.add("assert_msg_eager")
+        if isinstance(n, _ast.Compare) and len(n.ops) >= 2 and not all(isinstance(x, _ast.Constant) for x in n.comparators):
+            out.add("chain_eager")
+    return out
 
 
 def _in_chain(text, locs):
